@@ -240,6 +240,33 @@ def opt_truth(t):
     return None
 
 
+def body_writes_field(b, suffix):
+    """does body b contain a store to a place whose last projection is the field `suffix`"""
+    for bl in b['blocks']:
+        if bl['cleanup']:
+            continue
+        for st in bl['stmts']:
+            pr = st.get('lhs', {}).get('proj') or []
+            if pr and isinstance(pr[-1], str) and pr[-1].endswith(suffix):
+                return True
+    return False
+
+
+def estimate_mark_calls(facts, p):
+    """call events on path p that mark multi-version entries as estimates: the pinned `Scheduler::mark_mv_estimate`, or a
+    function that did not exist at the pinned commit (a helper, a private trait method) whose inlined body sets
+    `MemoryEntry.estimate = true`"""
+    out = []
+    for i, e in enumerate(p.events):
+        if e.kind != 'call':
+            continue
+        if callee_matches(e.d['callee'], 'Scheduler::<DB>::mark_mv_estimate') or norm_callee(e.d['callee']).endswith('Scheduler::mark_mv_estimate'):
+            out.append(e)
+        elif facts.is_new_fn(e.d['callee']) and body_writes_field(facts.by[e.d['callee']], 'MemoryEntry.estimate'):
+            out.append(e)
+    return out
+
+
 def site(fn, e):
     return f"{fn.b['file']}:{e.line if hasattr(e, 'line') else e}"
 
